@@ -232,6 +232,9 @@ def data_to_value(d, kind=None):
         return SV(data_to_term(r, 'pmap'), 'pmap')
     if isinstance(d, tuple) and d and d[0] in ('pnil', 'pcons'):
         return SV(data_to_term(d, 'pmap'), 'pmap')
+    if isinstance(d, tuple) and d and d[0] == 'obj':
+        from .pyfe import Obj
+        return Obj(None, {k: data_to_value(v) for k, v in d[2].items()})
     if isinstance(d, tuple) and d and d[0] == 'set':
         s = z3.EmptySet(Int)
         for x in d[1:]:
